@@ -74,9 +74,23 @@ func main() {
 	covered := []string{}
 	per := map[string]any{}
 	pool := ccm.NewWorlds(16)
-	for _, a := range ccm.Adapters() {
+	// cheap single-transaction routers first (btc, hsc), then the vote-style ones
+	all := append(ccm.FixedAdapters(), ccm.Adapters()...)
+	sort.SliceStable(all, func(i, j int) bool { return rank(all[i].Name()) < rank(all[j].Name()) })
+	for _, a := range all {
 		a := a
+		depth := depth
+		if a.Name() == "ripple" && r.Quick() {
+			depth = 3 // same CheckVotes / doneTx code shape as the vote router, explored one level less in the quick tier
+		}
 		covered = append(covered, a.Name())
+		ider, fixed := a.(ccm.IDer)
+		idOf := func(c uint64, i int) []byte {
+			if fixed {
+				return ider.CrossChainID(c, i)
+			}
+			return ccids[i]
+		}
 		// messages
 		msgs, alt := map[uint64][][]byte{}, map[uint64][][]byte{}
 		for _, c := range []uint64{S1, S2} {
@@ -103,16 +117,15 @@ func main() {
 		w.Close()
 		var events []string
 		// (chain,id) pairs: S1/x, S1/y, S2/x (same id on two chains, two ids on one chain); the second relayer
-		// (other voters / other account) only for the variants where it yields a different transaction set of
-		// the same message (same, height, altproof).
+		// (other voters / other account) for the variants same and height.
 		for _, ci := range []struct {
 			c uint64
 			i int
 		}{{S1, 0}, {S1, 1}, {S2, 0}} {
 			for _, v := range a.Variants() {
-				nrel := 2
-				if v == ccm.VAltMsg || v == ccm.VBad {
-					nrel = 1
+				nrel := 1
+				if v == ccm.VSame || v == ccm.VHeight {
+					nrel = 2
 				}
 				for rel := 0; rel < nrel; rel++ {
 					events = append(events, fmt.Sprintf("%d/%d/%s/%d", ci.c, ci.i, v, rel))
@@ -139,7 +152,7 @@ func main() {
 				fmt.Sscan(f[1], &i)
 				variant = f[2]
 				fmt.Sscan(f[3], &rel)
-				id := fmt.Sprintf("%d/%x", c, ccids[i])
+				id := fmt.Sprintf("%d/%x", c, idOf(c, i))
 				nx := state{Done: map[string]bool{}}
 				for k := range s.Done {
 					nx.Done[k] = true
@@ -178,11 +191,11 @@ func main() {
 							default:
 								r.Class("accept")
 								r.Case(a.Name() + "/accept/" + variant)
-								if otherChainHas(s.Done, c, ccids[i]) {
+								if otherChainHas(s.Done, c, idOf(c, i)) {
 									r.Class("other-chain-same-id-accepted")
 								}
 							}
-							if len(newDone) != 1 || newDone[0] != ccm.DoneKey(c, ccids[i]) {
+							if len(newDone) != 1 || newDone[0] != ccm.DoneKey(c, idOf(c, i)) {
 								d["new_done_keys"] = hexs(newDone)
 								r.Violation("C20/"+a.Name()+"/accepted-but-not-marked-done-under-(chain,id)", d)
 							}
@@ -243,13 +256,16 @@ func main() {
 		if st.Truncated {
 			r.Capped(a.Name() + ": BFS truncated by deadline at depth " + fmt.Sprint(st.MaxDepth))
 		}
-		idTx := idPhase(r, a, pool, init.D, ids)
+		idTx := 0
+		if !fixed { // the id alphabet needs freely chosen cross-chain ids
+			idTx = idPhase(r, a, pool, init.D, ids)
+		}
 		total.Transitions += idTx
-		per[a.Name()] = map[string]any{"states": st.States, "transitions": st.Transitions, "per_depth": st.PerDepth, "events_per_state": len(events),
+		per[a.Name()] = map[string]any{"max_depth": depth, "states": st.States, "transitions": st.Transitions, "per_depth": st.PerDepth, "events_per_state": len(events),
 			"id_alphabet": len(ids), "id_phase_txs": idTx}
 	}
 	r.Note("routers_covered", covered)
-	r.Note("routers_not_covered", ccm.RoutersWithoutAdapter())
+	r.Note("routers_not_covered", ccm.RoutersWithoutAdapter(true))
 	r.Note("per_router", per)
 	r.Assume("a re-vote on an already released identical (chain,height,extra) returns success without any effect (CheckVotes Status flag): classed replay-noop-success — not accepted, no state change",
 		"pre-quorum votes of a replayed message under a new vote id (other height / other message bytes) are recorded as vote bookkeeping; the deciding vote fails on the doneTx check and is rolled back",
@@ -391,6 +407,18 @@ func idPhase(r *ev.Run, a ccm.Adapter, pool *ccm.Worlds, base polyenv.Dump, ids 
 	}
 	config.DefConfig.Common.EnableEventLog = true
 	return ntx
+}
+
+func rank(name string) int {
+	switch name {
+	case "btc":
+		return 0
+	case "hsc":
+		return 1
+	case "vote":
+		return 2
+	}
+	return 3
 }
 
 func keysOf(m map[string]bool) []string {
